@@ -43,6 +43,7 @@ func ensureRaceLog() {
 			os.Remove(p)
 		}
 	}
+	scratchCleanup()
 	if err != nil {
 		if ee, ok := err.(*exec.ExitError); ok {
 			os.Exit(ee.ExitCode())
